@@ -274,14 +274,14 @@ theorem pres_file (c : RCtx) (f : File) (hU : ∀ j ∈ fileInfos f, Up c j) (i 
 /-- what survives `rewrite` -/
 theorem rewrite_mem (cfg : Cfg) (hcfg : cfg.keepsInputWhenEmpty = false) (st : St) (noInc : Bool) (img : Image)
     (out : List OFile) (h : rewrite cfg st noInc img = .ok out) (f : File) (hf : f ∈ img.files)
-    (hseen : f.id ∈ st.seen) (of : OFile) (hof : remapFile ⟨st, noInc, !cfg.svcMarksInput⟩ f = some of) :
+    (hseen : f.id ∈ st.seen) (of : OFile) (hof : remapFile ⟨st, noInc, !cfg.svcMarksInput, !cfg.staleOneofIndex⟩ f = some of) :
     of ∈ out := by
   unfold rewrite at h
   simp only [] at h
   split at h
   · cases h
   · have hm : of ∈ (img.files.filter (fun f => st.seen.contains f.id || st.edges.any (fun e => e.1 = f.id))).filterMap
-        (remapFile ⟨st, noInc, !cfg.svcMarksInput⟩) := by
+        (remapFile ⟨st, noInc, !cfg.svcMarksInput, !cfg.staleOneofIndex⟩) := by
       rw [List.mem_filterMap]
       refine ⟨f, ?_, hof⟩
       rw [List.mem_filter]
@@ -430,15 +430,15 @@ theorem dc_of_le (c : Ctx) (hwf : WFIdx c.idx) (s0 st : St) (hd : DC c.idx s0) (
   have hn : NonExt c p := hwf.parentNonExt j hj p hp
   exact hle.excl (hd j hj p hp (hle.frozen p hn h4))
 
-theorem has_iff_rk (st : St) (mio : Bool) (k : Key) :
-    (RCtx.has ⟨st, false, mio⟩ k = true) ↔ (1 ≤ rk st k ∧ rk st k ≤ 3) := by
+theorem has_iff_rk (st : St) (mio rn : Bool) (k : Key) :
+    (RCtx.has ⟨st, false, mio, rn⟩ k = true) ↔ (1 ≤ rk st k ∧ rk st k ≤ 3) := by
   unfold RCtx.has hasType rk
   cases h : st.get k with
   | none => simp [rank]
   | some m => cases m <;> simp [rank]
 
-theorem up_of_closed (c : Ctx) (hwf : WFIdx c.idx) (st : St) (hc : Closed c st) (hd : DC c.idx st) (mio : Bool) :
-    ∀ j ∈ c.idx, Up ⟨st, false, mio⟩ j := by
+theorem up_of_closed (c : Ctx) (hwf : WFIdx c.idx) (st : St) (hc : Closed c st) (hd : DC c.idx st) (mio rn : Bool) :
+    ∀ j ∈ c.idx, Up ⟨st, false, mio, rn⟩ j := by
   intro j hj hh p hp
   rw [has_iff_rk] at hh ⊢
   have hfind := hwf.uniq j hj
@@ -482,12 +482,12 @@ theorem filterWith_keeps_include (img : Image) (o : Opts) (fuel : Nat) (out : Li
     obtain ⟨st0, h0, ho, hg⟩ := closure_good cfgFixed rfl img o fuel st hcl
     have hd0 := (dc_excludePhase img (buildIndex img) hwf st0 o.excludes h0).2
     have hd : DC c.idx st := dc_of_le c hwf st0 st hd0 hg.2
-    have hup := up_of_closed c hwf st hg.1 hd true
+    have hup := up_of_closed c hwf st hg.1 hd true true
     obtain ⟨f, hf, hif⟩ := mem_buildIndex img i (find_mem hi)
     have hkey := find_key _ _ _ hi
-    have hhas : RCtx.has ⟨st, false, true⟩ i.key = true := by
+    have hhas : RCtx.has ⟨st, false, true, true⟩ i.key = true := by
       rw [has_iff_rk, hkey, rk_of_get hexp]; simp [rank]
-    obtain ⟨of, hof, hid, hpres⟩ := pres_file ⟨st, false, true⟩ f
+    obtain ⟨of, hof, hid, hpres⟩ := pres_file ⟨st, false, true, true⟩ f
       (fun j hj => hup j (mem_buildIndex_of img f hf j hj)) i hif hfld hkm hkf hhas
     have hfile := file_fileInfos f i hif
     have hseen : f.id ∈ st.seen := by
@@ -554,7 +554,7 @@ theorem remapDeps_lists (st : St) (f : File) (b : Id) (h : (f.id, b) ∈ st.edge
 
 theorem rewrite_origin (cfg : Cfg) (hcfg : cfg.keepsInputWhenEmpty = false) (st : St) (noInc : Bool) (img : Image)
     (out : List OFile) (h : rewrite cfg st noInc img = .ok out) (of : OFile) (hof : of ∈ out) :
-    ∃ f ∈ img.files, remapFile ⟨st, noInc, !cfg.svcMarksInput⟩ f = some of := by
+    ∃ f ∈ img.files, remapFile ⟨st, noInc, !cfg.svcMarksInput, !cfg.staleOneofIndex⟩ f = some of := by
   unfold rewrite at h
   simp only [] at h
   split at h
